@@ -450,6 +450,23 @@ class RecvUnit(Unit):
         logging.disable(logging.CRITICAL)
         from replay_drivers import zmq_history
         info = failure['extra']
+        if 'prev_id updated' in failure.get('obligation', ''):
+            # native: a receiver that is handed the state by its caller (coupled with a sender) must still record the id it returned: the next call without a state
+            # (MQ does that after a dropped send) starts from it
+            Z = zmq_history.load()
+            obs = []
+            for balance in (False, True):
+                r, subs = zmq_history.make_receiver(Z, ('all', 'all'), (0, 0), balance)
+                pub = zmq_history.Pub(0, balance)
+                for mid in (0, 1, 2):
+                    pub.publish(mid, pub.topics(mid))
+                    while pub.queue:
+                        subs[0].feed(pub.queue.pop(0))
+                    res = r.recv(Z.ZMQStateRecv(mid), timeout=0) if balance else None
+                    if res is not None and r.prev_id != res[1].msg_id:
+                        obs.append(f'balanced={balance}: recv(state with id {mid}) returned id {res[1].msg_id} but recorded prev_id={r.prev_id}: a later recv() without a state accepts ids from {r.prev_id + 1} again')
+            return {'confirmed': bool(obs), 'inputs': 'recv(state=ZMQStateRecv(k), timeout=0) on a balanced receiver, ids 0, 1, 2', 'observed': obs[:3] or 'prev_id follows the returned id',
+                    'required': 'ids handed out by one consumer strictly increase, whatever mix of coupled / uncoupled calls'}
         if 'C03.handshake' in failure.get('obligation', ''):
             # native: real receiver on the in-memory sockets, one source heard and a later one not yet: the requests of one recv() must say `new` exactly for the unheard ones
             import json
